@@ -146,7 +146,9 @@ def sany(module, spec_dir=SPEC, timeout=120):
         for f in os.listdir(spec_dir):
             if f.endswith(".tla"):
                 shutil.copy(os.path.join(spec_dir, f), os.path.join(scratch, f))
-        p = subprocess.run(["java", "-cp", JAR, "tla2sany.SANY", module + ".tla"], cwd=scratch,
+        # the proof modules extend TLAPS, which comes with the proof system, not with the tools jar
+        lib = "/opt/veriftools/tlapm/lib/tlapm/stdlib"
+        p = subprocess.run(["java"] + (["-DTLA-Library=" + lib] if os.path.isdir(lib) else []) + ["-cp", JAR, "tla2sany.SANY", module + ".tla"], cwd=scratch,
                            stdout=subprocess.PIPE, stderr=subprocess.STDOUT, timeout=timeout, text=True)
         ok = p.returncode == 0 and "Semantic errors" not in p.stdout and "***Parse Error***" not in p.stdout \
             and "Fatal errors" not in p.stdout
